@@ -37,7 +37,8 @@ ASSUMPTIONS = [
     'having_index lies inside the target list; StopIteration of next() is modelled as the IndexError of pop(0) (never '
     'raised: every key has one cell per grouped target, proved for the store the scan builds)',
 ]
-IMPORTS = ['Base.PyValue', 'Base.Decimal', 'Model.Eval', 'Model.Order', 'Model.Exec']
+IMPORTS = ['Base.PyValue', 'Base.Decimal', 'Model.Eval', 'Model.Order', 'Model.Exec', 'Model.Subquery']
+EXTRA_TARGETS = ['Model/Subquery.vo']      # items_of: the value list of an IN (SELECT ...) in the WHERE clause of the gen_in_case stream
 
 
 class AggGen:
@@ -192,6 +193,97 @@ def gen_case(rng, cols=None, rows=None, force_alias=False, alias_fmt='x{}'):
             'nkeys': len(keys), 'nagg': nagg}
 
 
+# ---- aggregate statements whose WHERE clause holds x [NOT] IN (SELECT ... FROM #u ...), the nested SELECT being a plain,
+# grouped or aggregated query of its own (0-2 aggregates, HAVING, ORDER BY an aggregate, LIMIT), next to aggregates of the
+# outer statement in its targets AND in HAVING / ORDER BY: every aggregate expression of the outer statement folds its own
+# argument over the group's rows, whatever else was compiled in between.
+def _inner_q(where, targets, group, aggs, having, order, limit):
+    return ('{| q_where := ' + (f'(Some {where})' if where else 'None') + '; q_targets := ' + clist(targets)
+            + '; q_group := ' + ('None' if group is None else 'Some ' + clist([f'{i}%nat' for i in group]))
+            + '; q_aggs := ' + clist(aggs) + '; q_having := ' + copt(having, lambda h: f'{h}%nat')
+            + '; q_order := ' + ('None' if not order else '(Some ' + clist([cpair(f'{i}%nat', cbool(d)) for i, d in order]) + ')')
+            + '; q_vis := [0%nat]; q_distinct := false; q_limit := ' + copt(limit, cZ) + ' |}')
+
+
+UROWS = '@UROWS@'      # stands for the rows of #u in the Gallina text of a case (filled in by model_expr, so that they can shrink)
+
+
+def gen_in_subquery(rng):
+    """-> (sql, Gallina query, shape) of a single-column SELECT over #u(k, w int, g str)"""
+    k, w, g = '(ECol 0%nat)', '(ECol 1%nat)', '(ECol 2%nat)'
+    n = rng.choice([0, 1, 2, 3])
+    cnt = '{| afun := ACountStar; aarg := (EConst VNull) |}'
+    sumw = '{| afun := (ASum (VInt 0)); aarg := (ECol 1%nat) |}'
+    shape = rng.choice(['plain', 'plain-where', 'group-having', 'group-having-2', 'group-agg', 'all-agg', 'group-order-agg-limit',
+                        'group-plain'])
+    if shape == 'plain':
+        return 'SELECT k FROM #u', _inner_q(None, [k], None, [], None, None, None), shape
+    if shape == 'plain-where':
+        return (f'SELECT k FROM #u WHERE w > {n}', _inner_q(f'(EBinary BGt {w} (EConst (VInt {n})))', [k], None, [], None, None, None), shape)
+    if shape == 'group-plain':
+        return 'SELECT k FROM #u GROUP BY k', _inner_q(None, [k], [0], [], None, None, None), shape
+    if shape == 'group-having':
+        return (f'SELECT k FROM #u GROUP BY k HAVING count(*) > {n}',
+                _inner_q(None, [k, f'(EBinary BGt (EAgg 0%nat) (EConst (VInt {n})))'], [0], [cnt], 1, None, None), shape)
+    if shape == 'group-having-2':
+        return (f'SELECT k FROM #u GROUP BY k HAVING sum(w) + count(*) > {n + 1}',
+                _inner_q(None, [k, f'(EBinary BGt (EBinary BAdd (EAgg 0%nat) (EAgg 1%nat)) (EConst (VInt {n + 1})))'], [0], [sumw, cnt], 1,
+                         None, None), shape)
+    fn, tag = rng.choice([('max', 'AMax'), ('min', 'AMin'), ('first', 'AFirst'), ('last', 'ALast')])
+    agk = '{| afun := ' + tag + '; aarg := (ECol 0%nat) |}'
+    if shape == 'group-agg':
+        return f'SELECT {fn}(k) FROM #u GROUP BY g', _inner_q(None, ['(EAgg 0%nat)', g], [1], [agk], None, None, None), shape
+    if shape == 'all-agg':
+        return f'SELECT {fn}(k) FROM #u', _inner_q(None, ['(EAgg 0%nat)'], [], [agk], None, None, None), shape
+    lim = rng.choice([1, 2, 3])
+    return (f'SELECT k FROM #u GROUP BY k ORDER BY sum(w) DESC, k LIMIT {lim}',
+            _inner_q(None, [k, '(EAgg 0%nat)'], [0], [sumw], None, [(1, True), (0, False)], lim), shape)
+
+
+def gen_in_case(rng):
+    for _ in range(50):
+        c = gen_case(rng)
+        cand = [(i, n, t) for i, (n, t) in enumerate(c['cols']) if t in (T_INT, T_DEC, T_STR, T_DATE)]
+        if cand and c['nagg'] >= 1:
+            break
+    i, x, t = rng.choice(cand)
+    # further aggregates of the outer statement behind the WHERE clause: HAVING / ORDER BY
+    ag = AggGen(rng, exprgen.Gen(rng, c['cols'], max_depth=2))
+    ag.aggs = c['aggs']
+    if not c['implicit'] and not c['having'] and rng.random() < 0.6:
+        h = ag.expr(T_BOOL, rng.choice([1, 2]))
+        c['having'] = (h.text, h.coq)
+    if not any(kind == 'hidden' for kind, _, _ in c['order']) and rng.random() < 0.5:
+        e = ag.expr(rng.choice([T_INT, T_DEC]), 1)
+        c['extra_order'].append((e.text, e.coq))
+        c['order'] = list(c['order']) + [('hidden', len(c['extra_order']) - 1, rng.choice(['', ' DESC']))]
+    # the second table: its k column shares values with the outer column
+    present = [r[i] for r in c['rows'] if r[i] is not None]
+    pool = list(dict.fromkeys(present))[:4] + [v for v in values.POOLS[PY[t]][:2]]
+    nu = rng.choice([0, 1, 2, 4, 6])
+    urows = [(None if rng.random() < 0.1 else rng.choice(pool), rng.choice([0, 1, 2, 3, 5]), rng.choice(['p', 'q', None])) for _ in range(nu)]
+    preds, shapes = [], []
+    for _ in range(rng.choice([1, 1, 1, 2])):
+        neg = rng.random() < 0.35
+        isql, iq, shape = gen_in_subquery(rng)
+        items = f'(items_of (exec {iq} {UROWS}))'
+        preds.append((f'({x} {"NOT IN" if neg else "IN"} ({isql}))', f'(EIn {cbool(neg)} (ECol {i}%nat) {items})'))
+        shapes.append(shape + ('/not' if neg else ''))
+    parts = list(preds)
+    if c['where']:
+        parts.insert(rng.randrange(len(parts) + 1), c['where'])
+    if len(parts) == 1:
+        c['where'] = parts[0]
+    else:
+        kw, tag = ('AND', 'EAnd') if rng.random() < 0.75 else ('OR', 'EOr')
+        c['where'] = ('(' + f' {kw} '.join(p[0] for p in parts) + ')', f'({tag} {clist([p[1] for p in parts])})')
+    c['ucols'] = [('k', t), ('w', T_INT), ('g', T_STR)]
+    c['urows'] = urows
+    c['in_shapes'] = shapes
+    c['in_column'] = x
+    return c
+
+
 def statement(c):
     tl = ', '.join(t['text'] + (f' AS {t["alias"]}' if t['alias'] else '') for t in c['targets'])
     s = 'SELECT ' + ('DISTINCT ' if c['distinct'] else '') + tl + ' FROM ' + c.get('from_sql', '#t')
@@ -219,7 +311,10 @@ def statement(c):
 
 def run_impl(c):
     t = impl.make_table('t', [(n, PY[ty]) for n, ty in c['cols']], c['rows'])
-    conn = impl.connection({'t': t})
+    tables = {'t': t}
+    if 'urows' in c:
+        tables['u'] = impl.make_table('u', [(n, PY[ty]) for n, ty in c['ucols']], c['urows'])
+    conn = impl.connection(tables)
     try:
         curs = conn.execute(statement(c))
         return [0, values.canon_rows(curs.fetchall())]
@@ -228,7 +323,10 @@ def run_impl(c):
 
 
 def model_expr(c):
-    return f'exec_out {query_coq(c)} {values.rows_to_coq(c["rows"])}'
+    q = query_coq(c)
+    if 'urows' in c:
+        q = q.replace(UROWS, values.rows_to_coq(c['urows']))
+    return f'exec_out {q} {values.rows_to_coq(c["rows"])}'
 
 
 def query_coq(c):
@@ -278,6 +376,19 @@ def shrink(c):
         return [run_impl(x) != m for x, m in zip(cs, ms)]
     if len(c['rows']) >= 2:
         c = with_rows(ddmin_batch(c['rows'], fails))
+    if len(c.get('urows', ())) >= 2:
+        base = c
+
+        def with_urows(urows):
+            d = dict(base)
+            d['urows'] = urows
+            return d
+
+        def fails_u(cands):
+            cs = [with_urows(r) for r in cands]
+            ms = model_many(cs, tag='c02s')
+            return [run_impl(x) != m for x, m in zip(cs, ms)]
+        c = with_urows(ddmin_batch(c['urows'], fails_u))
     return c
 
 
@@ -465,6 +576,8 @@ def generate():
 def run(tier, rng):
     n = 2000 if tier == 'quick' else 30000
     cases = [gen_case(rng) for _ in range(n)]
+    n_plain = len(cases)
+    cases += [gen_in_case(rng) for _ in range(400 if tier == 'quick' else 6000)]
     impl_out = core.pmap(run_impl, cases)
     model_out = model_many(cases)
     violations, seen = [], set()
@@ -485,16 +598,32 @@ def run(tier, rng):
         hist['hidden_keys'] += bool(c['hid_keys'])
         hist['order'] += bool(c['order'])
         hist['where'] += bool(c['where'])
+        if 'urows' in c:
+            ih = hist.setdefault('in_subquery_in_where', {'cases': 0, 'inner_shape': {}, 'outer_having_aggregate': 0,
+                                                          'outer_hidden_order_aggregate': 0, 'both': 0, 'outer_aggregates': {},
+                                                          'empty_inner_table': 0, 'executed_with_output_rows': 0})
+            ih['cases'] += 1
+            for sh in c['in_shapes']:
+                ih['inner_shape'][sh] = ih['inner_shape'].get(sh, 0) + 1
+            hv = bool(c['having']) and not c['implicit']
+            ho = any(kind == 'hidden' for kind, _, _ in c['order'])
+            ih['outer_having_aggregate'] += hv
+            ih['outer_hidden_order_aggregate'] += ho
+            ih['both'] += hv and ho
+            ih['outer_aggregates'][len(c['aggs'])] = ih['outer_aggregates'].get(len(c['aggs']), 0) + 1
+            ih['empty_inner_table'] += not c['urows']
+            ih['executed_with_output_rows'] += i[0] == 0 and bool(i[1])
         if i[0] == 'exception':
             errors += 1
         if i != m and len(seen) < 3:
             small = shrink(c)
-            sig = 'agg:' + statement(small) + ' rows=' + repr(small['rows'])
+            sig = 'agg:' + statement(small) + ' rows=' + repr(small['rows']) + (' u=' + repr(small['urows']) if 'urows' in small else '')
             if sig in seen:
                 continue
             seen.add(sig)
             violations.append(core.Violation(
-                'aggregation', f'{statement(small)} over {small["cols"]} rows {small["rows"]}: implementation '
+                'aggregation', f'{statement(small)} over {small["cols"]} rows {small["rows"]}'
+                + (f' and #u {small["ucols"]} rows {small["urows"]}' if 'urows' in small else '') + ': implementation '
                 f'{run_impl(small)} but partition-and-fold semantics (model) give {model_many([small], tag="c02s")[0]}',
                 {'case': small, 'statement': statement(small), 'impl': run_impl(small),
                  'model': model_many([small], tag='c02s')[0]}, signature=sig))
@@ -522,8 +651,12 @@ def run(tier, rng):
                 'expression; visible or hidden; explicit or implicit GROUP BY), 0-3 aggregate targets (count(*), count(x), sum over '
                 'int/decimal/bool, first, last, min, max over every type; arithmetic over aggregates), WHERE, HAVING, ORDER BY incl. hidden '
                 'aggregate keys, DISTINCT, LIMIT, tables of 0-12 rows with NULLs and duplicate keys; non-trivial = distinct case with >=3 '
-                'rows, >=1 key, executed, and fewer output rows than input rows (some group has >1 row or was filtered)',
-        'samples': [statement(c) for c in cases[:5]],
+                'rows, >=1 key, executed, and fewer output rows than input rows (some group has >1 row or was filtered); '
+                'plus the same statements with x [NOT] IN (SELECT ... FROM #u) in WHERE (1-2 of them, AND/OR-ed with the generated condition), the '
+                'nested SELECT plain / filtered / grouped / with 1-2 aggregates of its own in targets, HAVING or ORDER BY .. LIMIT, and with '
+                'further outer aggregates in HAVING / hidden ORDER BY keys (histograms.in_subquery_in_where), the model taking the value list '
+                'from Subquery.items_of (exec inner #u)',
+        'samples': [statement(c) for c in cases[:5]] + [statement(c) for c in cases[n_plain:n_plain + 3]],
         'traces_validated_against_impl': len(cases), 'histograms': hist, 'implementation_exceptions': errors,
     }
     return {'coverage': cov, 'violations': violations}
@@ -536,6 +669,8 @@ def replay(rec):
     c = rec['case']
     c['rows'] = [tuple(_unjson(v, t) for v, (_, t) in zip(r, c['cols'])) for r in c['rows']]
     c['order'] = [tuple(o) for o in c['order']]
+    if 'urows' in c:
+        c['urows'] = [tuple(_unjson(v, t) for v, (_, t) in zip(r, c['ucols'])) for r in c['urows']]
     if 'what' in rec:
         return additivity_check(c) is None
     return run_impl(c) == model_many([c], tag='c02s')[0]
